@@ -405,22 +405,21 @@ class Translator:
                 return c
         return strip_type(cls)
 
+    def bases_of(self, c):
+        rec = self.idx.records.get(c)
+        out = []
+        if rec:
+            for b in rec["bases"]:
+                bn = strip_type(b)
+                if bn.startswith(("NiCloneableStreamable<", "NiStreamable<", "NiCloneable<")):
+                    out.append(_split_targs(bn)[1])
+                else:
+                    out.append(bn)
+        return out
+
     def find_method(self, cls, m):
-        cls = strip_type(cls)
-        seen = set()
-        todo = [cls]
-        while todo:
-            c = todo.pop(0)
-            if c in seen:
-                continue
-            seen.add(c)
-            if (c, m) in self.idx.methods:
-                return self.idx.methods[(c, m)]
-            rec = self.idx.records.get(c)
-            if rec:
-                for b in rec["bases"]:
-                    todo.append(_base_name(b))
-        return None
+        o = self.method_owner(cls, m)
+        return self.idx.methods.get((o, m))
 
     # -------------------------------------------------------------------------------------------
     def stmts(self, nodes, cx, k=None):
@@ -873,11 +872,127 @@ class Translator:
             seen.add(c)
             if (c, m) in self.idx.methods:
                 return c
-            rec = self.idx.records.get(c)
-            if rec:
-                for b in rec["bases"]:
-                    todo.append(_base_name(b))
+            todo += self.bases_of(c)
         return cls
+
+    # -------------------------------------------------------------------------------------------
+    # reference enumerators (GetChildRefs / GetPtrs / GetStringRefs / GetChildIndices) as name sets
+    def enum_names(self, cls, method):
+        """names of the index fields reported by cls::method (inherited bodies included).
+        Returns (set of names, list of things not understood)."""
+        out, bad = set(), []
+        owner = self.method_owner(cls, method)
+        meth = self.idx.methods.get((owner, method))
+        if meth is None:
+            return out, bad            # NiObject's empty default
+        cx = Ctx(self, "", [], owner, {}, 0)
+        self.enum_body(meth, cx, method, out, bad)
+        return out, bad
+
+    def enum_body(self, meth, cx, method, out, bad):
+        params = [c for c in meth.get("inner", []) if c.get("kind") == "ParmVarDecl"]
+        acc = params[0]["id"] if params else None
+        body = [c for c in meth.get("inner", []) if c.get("kind") == "CompoundStmt"]
+        if not body:
+            return
+        self.enum_stmts(body[0].get("inner", []), cx, method, acc, out, bad)
+
+    def enum_stmts(self, nodes, cx, method, acc, out, bad):
+        for n in nodes:
+            self.enum_stmt(n, cx, method, acc, out, bad)
+
+    def enum_stmt(self, n, cx, method, acc, out, bad):
+        k = n.get("kind")
+        try:
+            if k in ("CompoundStmt",):
+                self.enum_stmts(n.get("inner", []), cx.child(), method, acc, out, bad)
+            elif k == "IfStmt":
+                for c in n["inner"][1:]:
+                    self.enum_stmt(c, cx.child(), method, acc, out, bad)
+            elif k in ("ExprWithCleanups", "ParenExpr", "ImplicitCastExpr"):
+                self.enum_stmt(n["inner"][0], cx, method, acc, out, bad)
+            elif k == "CXXForRangeStmt":
+                rng = loopvar = None
+                for c in n["inner"]:
+                    if c and c.get("kind") == "DeclStmt":
+                        for d in c.get("inner", []):
+                            if d.get("kind") == "VarDecl" and d.get("name", "").startswith("__range"):
+                                rng = d
+                            elif d.get("kind") == "VarDecl" and not d.get("name", "").startswith("__"):
+                                loopvar = d
+                name, idx, t = self.lvalue(rng["inner"][-1], cx)
+                ncx = cx.child()
+                et = loopvar["type"].get("desugaredQualType", loopvar["type"]["qualType"])
+                ncx.vars[loopvar["id"]] = ("path", name + "[]", idx + [("local", "_")], et)
+                self.enum_stmt(n["inner"][-1], ncx, method, acc, out, bad)
+            elif k == "ForStmt":
+                init = n["inner"][0]
+                ncx = cx.child()
+                if init and init.get("kind") == "DeclStmt":
+                    for d in init.get("inner", []):
+                        ncx.vars[d["id"]] = ("local", "_")
+                self.enum_stmt(n["inner"][-1], ncx, method, acc, out, bad)
+            elif k == "CXXMemberCallExpr":
+                me = n["inner"][0]
+                m = me.get("name")
+                obj = me["inner"][0]
+                args = n["inner"][1:]
+                o = _unwrap(obj)
+                is_acc = o.get("kind") == "DeclRefExpr" and o.get("referencedDecl", {}).get("id") == acc
+                if is_acc and m in ("insert", "emplace_back", "push_back"):
+                    a = _unwrap(args[0])
+                    if method == "GetChildIndices":
+                        name, idx, t = self.lvalue(a, cx)
+                        out.add(name)
+                    else:
+                        name, idx, t = self.lvalue(a, cx)
+                        out.add(name + ".index")
+                elif m in ("GetIndexPtrs", "GetIndices"):
+                    name, idx, t = self.lvalue(obj, cx)
+                    out.add(name + ".refs[].index")
+                elif m == method:
+                    if _unwrap(obj).get("kind") == "CXXThisExpr":
+                        # Base::Method(refs): continue with the base class named by the call
+                        qual = me.get("type", {})
+                        base = self.base_with_method(cx.this_class, method)
+                        if base is None:
+                            return
+                        bm = self.idx.methods.get((base, method))
+                        ncx = Ctx(self, cx.this_path, cx.this_idx, base, {}, cx.depth + 1)
+                        self.enum_body(bm, ncx, method, out, bad)
+                    else:
+                        name, idx, t = self.lvalue(obj, cx)
+                        t = strip_type(t)
+                        base = t.split("<")[0]
+                        if base == "NiSyncVector":
+                            et = _split_targs(t)[0]
+                            em = self.find_method(et, method)
+                            if em is not None:
+                                ncx = Ctx(self, name + "[]", idx + [("local", "_")], self.method_owner(et, method), {}, cx.depth + 1)
+                                self.enum_body(em, ncx, method, out, bad)
+                        else:
+                            em = self.find_method(t, method)
+                            if em is None:
+                                bad.append("no body for %s::%s" % (t, method))
+                            else:
+                                ncx = Ctx(self, name, idx, self.method_owner(t, method), {}, cx.depth + 1)
+                                self.enum_body(em, ncx, method, out, bad)
+                else:
+                    bad.append("call %s in %s" % (m, method))
+            elif k in ("DeclStmt", "NullStmt", "ReturnStmt"):
+                pass
+            else:
+                bad.append("statement %s in %s" % (k, method))
+        except Opaque as e:
+            bad.append(str(e))
+
+    def base_with_method(self, cls, method):
+        """first proper base class (in C++ lookup order) that defines the method"""
+        chain = self.full_chain(strip_type(cls))
+        for c in reversed(chain[:-1]):
+            if (c, method) in self.idx.methods:
+                return c
+        return None
 
     # -------------------------------------------------------------------------------------------
     def class_chain(self, cls):
@@ -1162,14 +1277,14 @@ def compute_sizes(repo, names, workdir):
     good = list(names)
     for attempt in range(6):
         body = "int main(){\n" + "".join('  std::printf("%s %%zu\\n", sizeof(%s));\n' % (n, n) for n in good) + "  return 0; }\n"
-        cpp = os.path.join(workdir, "sizes.cpp")
+        cpp = os.path.join(workdir, "sizes%d.cpp" % os.getpid())
         open(cpp, "w").write(src + body)
         p = subprocess.run(["g++", "-std=c++17", "-w", "-DNIFLY_VERIF_HOOKS", "-I" + os.path.join(repo, "include"), "-I" + os.path.join(repo, "external"),
-                            cpp, "-o", os.path.join(workdir, "sizes.bin")], capture_output=True, timeout=300)
+                            cpp, "-o", os.path.join(workdir, "sizes%d.bin" % os.getpid())], capture_output=True, timeout=300)
         if p.returncode == 0:
             break
         err = p.stderr.decode("utf-8", "replace")
-        badlines = set(int(m.group(1)) for m in re.finditer(r"sizes\.cpp:(\d+):", err))
+        badlines = set(int(m.group(1)) for m in re.finditer(r"sizes\d*\.cpp:(\d+):", err))
         lines = (src + body).split("\n")
         drop = set()
         for ln in badlines:
@@ -1179,13 +1294,15 @@ def compute_sizes(repo, names, workdir):
         if not drop:
             raise RuntimeError("sizes program does not compile: " + err[-2000:])
         good = [n for n in good if n not in drop]
-    out = subprocess.run([os.path.join(workdir, "sizes.bin")], capture_output=True, timeout=60).stdout.decode()
+    out = subprocess.run([os.path.join(workdir, "sizes%d.bin" % os.getpid())], capture_output=True, timeout=60).stdout.decode()
     sizes = {}
     for l in out.split("\n"):
         if " " in l:
             n, v = l.split(" ")
             sizes[n] = int(v)
-    json.dump(sizes, open(cache, "w"))
+    tmp = cache + ".tmp%d" % os.getpid()
+    json.dump(sizes, open(tmp, "w"))
+    os.replace(tmp, cache)
     return sizes
 
 
